@@ -32,6 +32,10 @@ CLAIMED = {
    text="Coq theorems (any number of focal elements, any masses >= 0 whose total reaches the level): the value returned by get_ecdf + extend_ecdf + 'next' interpolation at a level is an endpoint whose cumulated mass reaches the level while no smaller value's does (generalised inverse of Pl / Bel); by uniqueness it is independent of the order of listing and unchanged by splitting a focal element; monotone in the level; lower-endpoint bound <= upper-endpoint bound; stacking = Staircase constructor over these values on the grid; with n equal masses level a_t returns step t whenever t/n < a_t <= (t+1)/n, and the grid translated from params.py satisfies that at all 200 steps (round trip). Tie: bit-exact in-Coq run of stacking()/DempsterShafer.to_pbox()/stochastic_mixture() + exact-rational generalised-inverse oracle at all grid levels, permuted and split re-runs, round trips.",
    note="Trusted: kernel, Reals axioms, hand model validated by the differential run (interp1d 'next' as q[#{p_j<a}] clipped, cumsum as left fold, argsort as stable sort - value ties with inexact masses are excluded from generated cases because numpy's argsort is not stable), translate_params.py. At a level hit within rounding by a cumulated mass either neighbouring value is accepted.",
    technique="Coq proof (sorted prefix sums = order-free cumulated mass; uniqueness of the generalised inverse) + in-Coq differential run + exact oracle", ref="5/C08"),
+ "C16": dict(
+   text="Coq theorems over a pure-data model of the token-based context variable (closed under the global context, no axioms): after the exit event of a block (normal, exception, generator close = token reset) the value in force before the block is back, for any events in between; well-bracketed nesting of any depth and width returns to the initial state; for EVERY interleaving of the events of any number of execution contexts, what a context observes and where it ends are those of its own history run alone (induction over the interleaving); a new thread starts from the default, a task from a copy of its creator's value. Tie: real threads and asyncio tasks are driven event by event through enumerated / sampled schedules; get_current_dependency() after every event is compared with the model inside Coq and with an independent stack oracle; bare operators are compared with the explicit methods, unknown codes must fail.",
+   note="Modelled, not verified: CPython contextvars / threading / asyncio semantics; the with-statement is performed by calling __enter__/__exit__ as the statement does. Schedules are bounded samples on the implementation side; the theorem covers all.",
+   technique="Coq proof by induction over interleavings (non-interference) + trace correspondence on real threads / asyncio tasks", ref="5/C16"),
 }
 NA_REASON = "no check registered yet in this revision of the framework (work in progress, see DESIGN.md section 9)"
 base = json.load(open("/root/.vp/BASELINE.json"))
